@@ -235,6 +235,10 @@ func newsPathScanner(data []byte, _ bool) (advance int, token []byte, err error)
 	}
 
 	advance = 3 + int(data[2])
+	if len(data) < advance {
+		// the item's name is not in the scanner's buffer yet: ask for more data
+		return 0, nil, nil
+	}
 	return advance, data[3:advance], nil
 }
 
